@@ -7,6 +7,7 @@ use std::io::Read;
 use std::panic::{catch_unwind, AssertUnwindSafe};
 use std::rc::Rc;
 
+use incremental::expert::{Dependency, Node as ExpertNode};
 use incremental::{Cutoff, Incr, IncrState, Observer, SubscriptionToken, Update, Var};
 
 // ------------------------------------------------------------------------------------------------
@@ -108,6 +109,11 @@ enum Effect {
     Disallow(usize),
     Unsub(usize, usize),
     Sub(usize, usize),
+    XAdd(Opnd, Opnd, bool),
+    XRm(Opnd, usize),
+    XSel(Opnd, bool, bool, Vec<Opnd>),
+    XStale(Opnd),
+    XInval(Opnd),
 }
 
 #[derive(Clone, Debug)]
@@ -139,6 +145,7 @@ enum Instr {
     Zip(Opnd, Opnd),
     DependOn(Opnd, Opnd),
     Cutoff(Opnd, CutK),
+    Expert(usize, i64),
 }
 
 #[derive(Clone, Debug)]
@@ -221,6 +228,8 @@ fn parse_instr(t: &[&str]) -> Option<Instr> {
         ["zip", a, b] => Some(Instr::Zip(parse_opnd(a)?, parse_opnd(b)?)),
         ["dependon", a, b] => Some(Instr::DependOn(parse_opnd(a)?, parse_opnd(b)?)),
         ["cutoff", n, c @ ..] => Some(Instr::Cutoff(parse_opnd(n)?, parse_cutoff(c)?)),
+        ["expert", "sumdeps", m] => Some(Instr::Expert(0, m.parse().ok()?)),
+        ["expert", "cbsum", m] => Some(Instr::Expert(1, m.parse().ok()?)),
         _ => None,
     }
 }
@@ -238,6 +247,16 @@ fn parse_effect(t: &[&str]) -> Option<Effect> {
         ["disallow", o] => Some(Effect::Disallow(idx("o", o)?)),
         ["unsub", o, t] => Some(Effect::Unsub(idx("o", o)?, idx("t", t)?)),
         ["sub", o, h] => Some(Effect::Sub(idx("o", o)?, idx("h", h)?)),
+        ["xadd", e, c, cb] => Some(Effect::XAdd(parse_opnd(e)?, parse_opnd(c)?, *cb == "cb")),
+        ["xrm", e, i] => Some(Effect::XRm(parse_opnd(e)?, i.parse().ok()?)),
+        ["xsel", e, cb, always, ts @ ..] => Some(Effect::XSel(
+            parse_opnd(e)?,
+            *cb == "cb",
+            *always == "always",
+            ts.iter().map(|t| parse_opnd(t)).collect::<Option<Vec<_>>>()?,
+        )),
+        ["xstale", e] => Some(Effect::XStale(parse_opnd(e)?)),
+        ["xinval", e] => Some(Effect::XInval(parse_opnd(e)?)),
         _ => None,
     }
 }
@@ -301,13 +320,63 @@ pub struct Ctx {
     handles: RefCell<HashMap<usize, Incr<V>>>,
     pair_handles: RefCell<HashMap<usize, Incr<(V, V)>>>,
     top: RefCell<Vec<usize>>,
+    experts: RefCell<HashMap<usize, Rc<ExpertHandle>>>,
+    deps: RefCell<Vec<Option<Dependency<V>>>>,
     vars: RefCell<Vec<Option<Var<V>>>>,
     var_handles: RefCell<Vec<usize>>,
     observers: RefCell<Vec<Vec<Observer<V>>>>,
     tokens: RefCell<Vec<SubscriptionToken>>,
 }
 
+pub struct ExpertHandle {
+    node: ExpertNode<V>,
+    /// current edges: (dependency name, has callback)
+    edges: Rc<RefCell<Vec<(usize, bool)>>>,
+    slots: Rc<RefCell<HashMap<usize, V>>>,
+    script: RefCell<Vec<usize>>,
+    sel: RefCell<Option<(usize, usize)>>,
+}
+
 type C = Rc<Ctx>;
+
+fn expert(ctx: &C, n: usize) -> Option<Rc<ExpertHandle>> {
+    ctx.experts.borrow().get(&n).cloned()
+}
+
+/// `add_dependency` / `add_dependency_with`; the name is allocated before the call, as in the model
+fn expert_add(ctx: &C, n: usize, child: usize, cb: bool) -> usize {
+    let Some(eh) = expert(ctx, n) else {
+        panic!("verif-harness: n{} is not an expert node", n)
+    };
+    let dep_id = {
+        let mut deps = ctx.deps.borrow_mut();
+        deps.push(None);
+        deps.len() - 1
+    };
+    let child_incr = handle(ctx, child);
+    eh.edges.borrow_mut().push((dep_id, cb));
+    let dep = if cb {
+        let slots = eh.slots.clone();
+        let me = n;
+        eh.node.add_dependency_with(&child_incr, move |v: &V| {
+            log(format!("inv cb@n{} ({:?})->d{}", me, v, dep_id));
+            slots.borrow_mut().insert(dep_id, v.clone());
+        })
+    } else {
+        eh.node.add_dependency(&child_incr)
+    };
+    ctx.deps.borrow_mut()[dep_id] = Some(dep);
+    dep_id
+}
+
+fn expert_remove(ctx: &C, n: usize, dep_id: usize) {
+    let Some(eh) = expert(ctx, n) else { return };
+    let dep = ctx.deps.borrow()[dep_id].clone().expect("verif-harness: dependency not created");
+    eh.node.remove_dependency(dep);
+    eh.edges.borrow_mut().retain(|(d, _)| *d != dep_id);
+    eh.slots.borrow_mut().remove(&dep_id);
+}
+
 
 fn st(ctx: &C) -> IncrState {
     ctx.state.borrow().as_ref().expect("state dropped").clone()
@@ -335,6 +404,10 @@ fn render_read(r: Result<V, incremental::ObserverError>) -> String {
 }
 
 fn run_effects(ctx: &C, effs: &[Effect]) {
+    run_effects_arg(ctx, effs, 0)
+}
+
+fn run_effects_arg(ctx: &C, effs: &[Effect], arg: i64) {
     for e in effs {
         match e {
             Effect::SetVar(v, x) => var(ctx, *v).set(x.clone()),
@@ -379,6 +452,60 @@ fn run_effects(ctx: &C, effs: &[Effect]) {
             }
             Effect::Sub(o, h) => {
                 let _ = do_subscribe(ctx, *o, *h);
+            }
+            Effect::XAdd(e, c, cb) => {
+                let n = resolve_ix(ctx, &[], e);
+                let c = resolve_ix(ctx, &[], c);
+                let dep = expert_add(ctx, n, c, *cb);
+                if let Some(eh) = expert(ctx, n) {
+                    eh.script.borrow_mut().push(dep);
+                }
+            }
+            Effect::XRm(e, i) => {
+                let n = resolve_ix(ctx, &[], e);
+                if let Some(eh) = expert(ctx, n) {
+                    let dep = {
+                        let sc = eh.script.borrow();
+                        if sc.is_empty() {
+                            None
+                        } else {
+                            Some(sc[*i % sc.len()])
+                        }
+                    };
+                    if let Some(dep) = dep {
+                        eh.script.borrow_mut().retain(|d| *d != dep);
+                        expert_remove(ctx, n, dep);
+                    }
+                }
+            }
+            Effect::XSel(e, cb, always, targets) => {
+                let n = resolve_ix(ctx, &[], e);
+                if let Some(eh) = expert(ctx, n) {
+                    if !targets.is_empty() {
+                        let t = resolve_ix(ctx, &[], &targets[emod(arg, targets.len() as i64) as usize]);
+                        let prev = *eh.sel.borrow();
+                        let same = prev.map_or(false, |(_, c)| c == t);
+                        if *always || !same {
+                            let dep = expert_add(ctx, n, t, *cb);
+                            if let Some((d, _)) = prev {
+                                expert_remove(ctx, n, d);
+                            }
+                            *eh.sel.borrow_mut() = Some((dep, t));
+                        }
+                    }
+                }
+            }
+            Effect::XStale(e) => {
+                let n = resolve_ix(ctx, &[], e);
+                if let Some(eh) = expert(ctx, n) {
+                    eh.node.make_stale();
+                }
+            }
+            Effect::XInval(e) => {
+                let n = resolve_ix(ctx, &[], e);
+                if let Some(eh) = expert(ctx, n) {
+                    eh.node.invalidate();
+                }
             }
         }
     }
@@ -470,7 +597,7 @@ fn elab_instr(ctx: &C, loc: &[usize], lhs: &V, i: &Instr) -> Option<usize> {
                     let f = *f;
                     let out = pair.map(move |(x, y): &(V, V)| {
                         let p = V::Pair(Rc::new((x.clone(), y.clone())));
-                        run_effects(&ctx2, &fd.effects);
+                        run_effects_arg(&ctx2, &fd.effects, to_int(&p));
                         let r = apply_fn(&fd, &[&p]);
                         log(format!("inv f{}@n{} ({:?})->{:?}", f, me2.get(), p, r));
                         r
@@ -486,7 +613,7 @@ fn elab_instr(ctx: &C, loc: &[usize], lhs: &V, i: &Instr) -> Option<usize> {
             let ctx2 = ctx.clone();
             let f = *f;
             let call = move |xs: &[&V]| -> V {
-                run_effects(&ctx2, &fd.effects);
+                run_effects_arg(&ctx2, &fd.effects, xs.first().map_or(0, |x| to_int(x)));
                 let r = apply_fn(&fd, xs);
                 log(format!("inv f{}@n{} ({})->{:?}", f, me2.get(), fmt_args(xs), r));
                 r
@@ -605,6 +732,41 @@ fn elab_instr(ctx: &C, loc: &[usize], lhs: &V, i: &Instr) -> Option<usize> {
             let a = resolve(ctx, loc, a);
             let b = resolve(ctx, loc, b);
             Some(register(ctx, &a.depend_on(&b)))
+        }
+        Instr::Expert(kind, m) => {
+            let edges: Rc<RefCell<Vec<(usize, bool)>>> = Rc::new(RefCell::new(vec![]));
+            let slots: Rc<RefCell<HashMap<usize, V>>> = Rc::new(RefCell::new(HashMap::new()));
+            let me = Rc::new(Cell::new(usize::MAX));
+            let (kind, m) = (*kind, *m);
+            let f = (m as usize) * 10 + kind;
+            let node = {
+                let (edges, slots, me, me3, ctx2) = (edges.clone(), slots.clone(), me.clone(), me.clone(), ctx.clone());
+                ExpertNode::<V>::new_(
+                    &state.weak(),
+                    move || {
+                        let mut acc = 0i64;
+                        for (d, cb) in edges.borrow().iter() {
+                            if kind == 0 {
+                                let dep = ctx2.deps.borrow()[*d].clone().expect("verif-harness: dependency not created");
+                                acc += to_int(&dep.value_cloned());
+                            } else if *cb {
+                                acc += slots.borrow().get(d).map_or(0, to_int);
+                            }
+                        }
+                        let v = V::Int(emod(acc, m));
+                        log(format!("inv x{}@n{} ()->{:?}", f, me.get(), v));
+                        v
+                    },
+                    move |b| log(format!("note obschange n{} {}", me3.get(), b)),
+                )
+            };
+            let ix = register(ctx, &node.watch());
+            me.set(ix);
+            ctx.experts.borrow_mut().insert(
+                ix,
+                Rc::new(ExpertHandle { node, edges, slots, script: RefCell::new(vec![]), sel: RefCell::new(None) }),
+            );
+            Some(ix)
         }
         Instr::Cutoff(n, c) => {
             let node = resolve(ctx, loc, n);
@@ -767,6 +929,11 @@ fn action(ctx: &C, toks: &[&str]) -> String {
                 "ok".into()
             }
         }
+        ["adddep", e, c, cb] => {
+            let n = resolve_ix(ctx, &[], &parse_opnd(e).unwrap());
+            let c = resolve_ix(ctx, &[], &parse_opnd(c).unwrap());
+            format!("ok d{}", expert_add(ctx, n, c, *cb == "cb"))
+        }
         ["stabilise"] => {
             st(ctx).stabilise();
             "ok".into()
@@ -823,6 +990,8 @@ pub fn run() {
         handles: RefCell::new(HashMap::new()),
         pair_handles: RefCell::new(HashMap::new()),
         top: RefCell::new(vec![]),
+        experts: RefCell::new(HashMap::new()),
+        deps: RefCell::new(vec![]),
         vars: RefCell::new(vec![]),
         var_handles: RefCell::new(vec![]),
         observers: RefCell::new(vec![]),
